@@ -15,6 +15,7 @@ import Gpa.Model.Ebpf
 import Gpa.Model.Provision
 import Gpa.Model.SetupFs
 import Gpa.Model.KeyKeeper
+import Gpa.Model.Secrets
 
 open Gpa
 
@@ -29,6 +30,7 @@ structure DState where
   kkAgent : KeyKeeper.Agent := KeyKeeper.Agent.init
   kkFs : KeyKeeper.KeyDir := { final := [], tmp := [] }
   rollCfg : Logs.Settings := { maxSize := 1, maxCount := 1 }
+  sec : Secrets.St := Secrets.St.init
 
 def showRoll (r : Logs.Rolling) : String :=
   let c := match r.cur with | some v => toString v | none => "-"
@@ -125,6 +127,70 @@ def showAgent (a : KeyKeeper.Agent) : String :=
   let kg := match a.key with | some k => Pipeline.hexStr k.guid | none => "-"
   let kv := match a.key with | some k => Pipeline.hexStr k.key | none => "-"
   s!"ids={Pipeline.hexStr a.wsId},{Pipeline.hexStr a.imdsId},{Pipeline.hexStr a.hostgaId} key={kg},{kv} chan={Pipeline.hexStr a.chan} ws={showRule a.wsRules} imds={showRule a.imdsRules} hostga={showRule a.hostgaRules}"
+
+def showPieces (t : Secrets.Text) : String :=
+  let fl := t.filterMap fun p => match p with
+    | .guid k => some s!"g{k}" | .secret k => some s!"s{k}" | .mac k => some s!"m{k}" | .lit _ => none
+  if fl.isEmpty then "-" else "+".intercalate fl.eraseDups
+
+def showSink : Secrets.Sink → String
+  | .agentLog => "agentLog" | .connLog => "connLog" | .console => "console" | .serial => "serial" | .event => "event"
+  | .statusMsg => "statusMsg" | .statusJson => "statusJson" | .statusTag => "statusTag" | .clientResp => "clientResp"
+  | .rulesDump => "rulesDump" | .upstreamAuth => "upstreamAuth" | .hostReq => "hostReq" | .keyFile => "keyFile"
+
+def showSec (r : Secrets.St × List Secrets.Emit × List Secrets.FsOp) : String :=
+  let es := r.2.1.map fun e => s!"{showSink e.sink}:{e.tid}:{showPieces e.text}"
+  let fs := r.2.2.map fun o => match o with
+    | .mkdirKeyDir => "mkdir" | .chownKeyDir => "chown" | .chmodKeyDir m => s!"chmod{m}" | .createKeyFile k => s!"create{k}"
+  let cur := match r.1.cur with | some k => toString k.id | none => "-"
+  let files := ",".intercalate (r.1.files.map fun k => toString k.id)
+  s!"cur={cur} files={if files.isEmpty then "-" else files} emits={if es.isEmpty then "-" else ",".intercalate es} fs={if fs.isEmpty then "-" else ",".intercalate fs}"
+
+def secStatus : List String → Option (Secrets.StatusIn × List String)
+  | "F" :: n :: rest => some (.failed [.lit s!"status error {n}"], rest)
+  | "K" :: g :: state :: rules :: rest =>
+      let guid : Option (Option Nat) := if g = "N" then some none else g.toNat?.map some
+      match guid, Hex.decodeString state with
+      | some guid, some state =>
+        let desc : Secrets.Text := [.lit s!"state {state} keyGuid: "] ++ (match guid with | some k => [.guid k] | none => [.lit "None"])
+        some (.ok desc guid state (if rules = "1" then some [.lit "rules"] else none), rest)
+      | _, _ => none
+  | _ => none
+
+def secAcquire : List String → Option (Secrets.AcquireIn × List String)
+  | "S" :: rest => some (.sendFail, rest)
+  | "H" :: c :: rest => c.toNat?.map fun c => (.http c, rest)
+  | "M" :: k :: rest =>
+      if k = "-" then some (.malformed [.lit "body"], rest)
+      else k.toNat?.map fun k => (.malformed [.lit "{\"key\": \"", .secret k, .lit "\"}"], rest)
+  | "K" :: k :: h :: rest => k.toNat?.map fun k => (.key { id := k, hexOk := h = "1" }, rest)
+  | _ => none
+
+def secAttest : List String → Option Secrets.AttestIn
+  | ["O"] => some .ok
+  | ["H", c] => c.toNat?.map .http
+  | ["S"] => some .sendFail
+  | _ => none
+
+def secOp (toks : List String) : Option Secrets.Op :=
+  match toks with
+  | ["start"] => some .start
+  | ["restart"] => some .restart
+  | ["request"] => some .request
+  | ["provq"] => some .provisionQuery
+  | ["tick"] => some .statusTick
+  | ["timeup"] => some .timeup
+  | "poll" :: rest =>
+      match secStatus rest with
+      | some (s, rest) =>
+        match secAcquire rest with
+        | some (a, so :: rest) =>
+          match secAttest rest with
+          | some att => some (.poll { status := s, acquire := a, storeOk := so = "1", attest := att })
+          | none => none
+        | _ => none
+      | none => none
+  | _ => none
 
 def stepLine (st : DState) (line : String) : DState × String :=
   match line.trimAscii.toString.splitOn " " with
@@ -321,6 +387,13 @@ def stepLine (st : DState) (line : String) : DState × String :=
           let r := SetupFs.run (fun x => x < 1000) fs c
           let out := setupPaths.map fun p => match r.1 p with | some v => toString v | none => "-"
           (st, " ".intercalate out ++ " | " ++ ",".intercalate (r.2.map showEv))
+      | none => (st, "bad-op")
+  | ["sec", "new"] => ({ st with sec := Secrets.St.init }, s!"ok variant={if Secrets.codeVariant.withholdHexKey then 1 else 0}{if Secrets.codeVariant.withholdBody then 1 else 0}")
+  | "sec" :: toks =>
+      match secOp toks with
+      | some op =>
+          let r := Secrets.step Secrets.codeVariant st.sec op
+          ({ st with sec := r.1 }, showSec r)
       | none => (st, "bad-op")
   | ["kk", "new"] => ({ st with kkAgent := KeyKeeper.Agent.init, kkFs := { final := [], tmp := [] } }, "ok")
   | ["kk", "file", g, "remove"] =>
